@@ -51,6 +51,10 @@ def gen_cases(tier, seed):
                           eqnames=eqn, per_u=per_u, weights=["scalar", "dict", "default"][int(rng.integers(3))],
                           obs_src=["hand", "multi"][int(rng.integers(2))], B=int(rng.integers(1, 7)),
                           seed=seed * 100000 + k, cost=2.0))
+    # built-in two-equation system (mass conservation + Navier-Stokes) on pointwise and on separable networks
+    for k in range(10 if q else 100):
+        cases.append(dict(kind="ns_system", net=["pinn", "spinn"][k % 2], weights=["scalar", "dict"][(k // 2) % 2],
+                          B=int(rng.integers(2, 5)), seed=seed * 100000 + 70000 + k, cost=3.0))
     return cases
 
 
@@ -272,6 +276,68 @@ def eqx_tree_at_obs_slice(loss, sl):
     return obj
 
 
+def run_ns_system(case, rec, rng):
+    """SystemLossPDE(mass conservation, Navier-Stokes) on (velocity, pressure) networks, pointwise or separable;
+    expected dynamic term from the documented expressions (numpy closed forms), mean over points / over the grid"""
+    import itertools
+
+    import jax.numpy as jnp
+    import jinns
+    from jinns.parameters import ParamsDict
+
+    from .c02 import np_mass, np_ns
+
+    J = lambda v: jnp.asarray(v, dtype=float)
+    B = case["B"]
+    spinn = case["net"] == "spinn"
+    rec.count("system_evaluations")
+    rec.count("ns_systems_%s" % case["net"])
+    if spinn:
+        fu = fields.SepField(case["seed"], 2, 2, 2)
+        fp = fields.SepField(case["seed"] + 1, 2, 1, 1)
+        nu_, np_ = nets.SNet(fu, "statio_PDE"), nets.SNet(fp, "statio_PDE")
+        udict = {"vel": nu_.spinn(), "pre": np_.spinn()}
+    else:
+        fu = fields.TrigField(case["seed"], 2, 2)
+        fp = fields.TrigField(case["seed"] + 1, 2, 1)
+        nu_, np_ = nets.Net(fu, "statio_PDE"), nets.Net(fp, "statio_PDE")
+        udict = {"vel": nu_.pinn(), "pre": np_.pinn()}
+    rho, nu = float(rng.uniform(0.5, 2.0)), float(rng.uniform(0.2, 1.5))
+    pd = ParamsDict(nn_params={"pre": np_.nn_params(), "vel": nu_.nn_params()}, eq_params={"nu": J(nu), "rho": J(rho)})
+    wm, wn = float(np.round(rng.uniform(0.4, 2.5), 3)), float(np.round(rng.uniform(0.4, 2.5), 3))
+    if case["weights"] == "dict":
+        lw = jinns.loss.LossWeightsPDEDict(dyn_loss={"momentum": wn, "continuity": wm})
+        rec.count("dict_weight_systems")
+    else:
+        wm = wn
+        lw = jinns.loss.LossWeightsPDEDict(dyn_loss=wm)
+    dyn = {"continuity": jinns.loss.MassConservation2DStatio(nn_key="vel"),
+           "momentum": jinns.loss.NavierStokes2DStatio(u_key="vel", p_key="pre")}
+    loss = guard.call(jinns.loss.SystemLossPDE, u_dict=udict, dynamic_loss_dict=dyn, loss_weights=lw, params_dict=pd)
+    cols = rng.uniform(-0.5, 1.5, (B, 2))
+    batch = jinns.data.PDEStatioBatch(inside_batch=J(cols), border_batch=None)
+    try:
+        total, terms = guard.call(loss.evaluate, pd, batch)
+    except guard.Crash as c:
+        rec.violation("system-pde/ns-system/%s/evaluate-crash/%s" % (case["net"], c.etype), "built-in NS system crashed: %s" % c)
+        return
+    pts = [np.array([cols[i, 0], cols[j, 1]]) for i, j in itertools.product(range(B), repeat=2)] if spinn else list(cols)
+    em = float(np.mean([np_mass(fu, z) ** 2 for z in pts]))
+    en = float(np.mean([np.sum(np_ns(fu, fp, z, rho, nu) ** 2) for z in pts]))
+    exp = wm * em + wn * en
+    got = float(terms["dyn_loss"])
+    if exp > 1e-6:
+        rec.nontrivial(("ns_system", case["net"], case["weights"], B, case["seed"]))
+    rec.set_sample(kind="ns_system", net=case["net"], weights=case["weights"], B=B, dyn_loss=got, expected=exp,
+                   continuity_mean=em, momentum_mean=en)
+    if not close(got, exp, 1e-8, 1e-10):
+        alt = wn * em + wm * en
+        rec.violation("system-pde/ns-system/%s/dyn_loss%s" % (case["net"], "/weights-swapped" if close(got, alt, 1e-8, 1e-10) and wm != wn else ""),
+                      "built-in system dyn_loss %r, expected w_c*mean(div^2) + w_m*mean(|NS|^2) = %r" % (got, exp))
+    if not close(float(total), sum(float(v) for v in terms.values()), 1e-12, 1e-14):
+        rec.violation("system-pde/total-not-sum", "total != sum of terms")
+
+
 def run_case(case, rec):
     import jax
     import jax.numpy as jnp
@@ -279,6 +345,8 @@ def run_case(case, rec):
     from jinns.parameters import Params
 
     rng = np.random.default_rng([case["seed"], 13])
+    if case["kind"] == "ns_system":
+        return run_ns_system(case, rec, rng)
     sp = SystemProblem(case, rng)
     B = case["B"]
     sp.make_data(B)
